@@ -32,7 +32,7 @@ Proof. exact abf_state_is_sample_sum_partial. Qed.
 Print Assumptions C04_abf_state_is_sample_sum_partial.
 
 (* W1: subtractAppliedForce + lagged forces + measured total force exactly 0 (engine -1, restraint +1):
-   the stored sum in bin [0] is 0, minus the attributed sample is 1. *)
+   the stored sum in bin [0] is -2, minus the sum of the attributed samples (-1 and 2) is -1. *)
 Theorem C04_abf_state_is_sample_sum_refuted :
   exists (c : @abf_cfg Q) (h : list (@abf_in Q)) (b : idx),
     c_szd c = false /\
@@ -109,8 +109,8 @@ Proof. exact example_clean_trace. Qed.
 Example C04_example_started : forall (c : @abf_cfg R) s i, s_started (fst (abf_step Rops c s i)) = true.
 Proof. exact started_after_step. Qed.
 
-(* the witnesses are runs in which the sample is really taken (count 1 on both sides) *)
+(* the witnesses are runs in which the samples are really taken (same counts on both sides) *)
 Example C04_example_witness_counts :
-  stored_cnt w1_cfg w1_hist [0%Z] = 1%Z /\ spec_cnt w1_cfg w1_hist [0%Z] = 1%Z /\
+  stored_cnt w1_cfg w1_hist [0%Z] = 2%Z /\ spec_cnt w1_cfg w1_hist [0%Z] = 2%Z /\
   stored_cnt w2_cfg w2_hist [1%Z] = 1%Z /\ spec_cnt w2_cfg w2_hist [1%Z] = 1%Z.
 Proof. vm_compute. repeat split; reflexivity. Qed.
